@@ -20,7 +20,8 @@ REQUIRED_THEOREMS = [
     'C10_table_rows_applied', 'C10_table_counterexample', 'C10_table_counterexample_start',
     'C10_dataset_rows', 'C10_dataset_row_amount', 'C10_multi_partial', 'C10_overlap_counterexample',
     'C10_surgery_direct', 'C10_surgery_indirect', 'C10_delivered_integral', 'paceStep_eq_pace',
-    'C10_multi_nonoverlap', 'C10_dataset_delivery', 'C10_reduced_passthrough', 'C10_set_data_history']
+    'C10_multi_nonoverlap', 'C10_dataset_delivery', 'C10_reduced_passthrough', 'C10_set_data_history', 'C10_averaged_passthrough',
+    'C10_readministration']
 RULE = ('regimens (dose, start, duration, period|None, num|None) with dyadic numbers (and the default 0.01 '
         'duration), single / finite / indefinite, incl. ill-formed ones (zero duration, duration > period, '
         'negative start, num without period); final times on every boundary (None, < start, = start, '
@@ -324,20 +325,33 @@ def check_simulated(ctx, chi, models, reg, kind, direct, rng, door='model'):
 
 def check_generated_dosing(ctx, chi, i, rng):
     """a generated compartment model, dosed directly / through a depot into a random species"""
-    spec = sbmlgen.gen_spec(rng, max_states=4)
+    spec = sbmlgen.gen_spec(rng, max_states=4, one_compartment=bool(i % 2 == 0))
     species = [s for s in spec['states'] if s['kind'] == 'species']
     if not species:
         return
-    s = species[int(rng.integers(len(species)))]
-    direct = bool(rng.random() < 0.5)
     path = os.path.join(c09.tmpdir(), 'd%d.xml' % i)
     sbmlgen.write_sbml(spec, path)
     refsim.clear_record()
     model = chi.PKPDModel(path)
     os.remove(path)
     vanilla = refsim.MODELS[[r for r in refsim.RECORD if r[1] == 'new'][-1][0]]
-    check_surgery(ctx, model, vanilla, s['comp'], s['id'] + '_amount', direct,
-                  {'spec': spec, 'dosed': s['id'], 'direct': direct})
+    # a history of routes: each call starts from the model file again, so only the last one counts — also when
+    # only the dosed variable changes (same compartment, same direct / indirect flag)
+    calls = []
+    for k_ in range(int(rng.integers(1, 4))):
+        if calls and rng.random() < 0.7:
+            prev_s, prev_d = calls[-1]
+            same = [x for x in species if x['comp'] == prev_s['comp'] and x['id'] != prev_s['id']]
+            s, direct = (same[int(rng.integers(len(same)))], prev_d) if same else \
+                (species[int(rng.integers(len(species)))], bool(rng.random() < 0.5))
+            if same:
+                ctx.branches.add('administration:only-amount_var-changed')
+        else:
+            s, direct = species[int(rng.integers(len(species)))], bool(rng.random() < 0.5)
+        calls.append((s, direct))
+        check_surgery(ctx, model, vanilla, s['comp'], s['id'] + '_amount', direct,
+                      {'spec': spec, 'dosed': s['id'], 'direct': direct,
+                       'administration calls': [(c[0]['comp'], c[0]['id'] + '_amount', c[1]) for c in calls]})
     reg, kind = gen_regimen(rng, valid_only=True)
     model.set_dosing_regimen(**reg)
     inp = {'spec': spec, 'dosed': s['id'], 'direct': direct, 'regimen': reg}
@@ -397,7 +411,13 @@ def check_surgery(ctx, model, vanilla, comp, amount_var, direct, inp):
     amount = comp + '.' + amount_var
     refsim.clear_record()
     model.set_administration(comp, amount_var=amount_var, direct=direct)
-    sid, _, new = [r for r in refsim.RECORD if r[1] == 'new'][-1]
+    built = [r for r in refsim.RECORD if r[1] == 'new']
+    if not built:
+        # no solver was built: the model chi simulates is still the one of the previous route
+        ctx.spec(tag, False, inp, {'set_administration': 'did not build a new solver for this route',
+                                   'administration()': model.administration()})
+        return
+    sid, _, new = built[-1]
     m = refsim.MODELS[sid]
     old = vanilla.get(amount).rhs()
     rate = new['pace']
@@ -677,6 +697,64 @@ def check_dataset_sequence(ctx, chi, lib, rng, output):
     ctx.case('dataset/sequence', nontrivial='dataset/sequence/%s/%s' % (dosing, '>'.join(k[:2] for k in kinds)))
 
 
+def build_wrappers(chi, lib):
+    """every predictive-model class that forwards set_dosing_regimen, with the predictive models it wraps
+    (reached through the public get_predictive_model accessors)"""
+    import pints
+    import xarray as xr
+
+    def pred(direct):
+        m = lib.one_compartment_pk_model()
+        m.set_administration('central', direct=direct)
+        return chi.PredictiveModel(m, [chi.GaussianErrorModel()])
+
+    def posterior(pm):
+        names = pm.get_parameter_names()
+        return xr.Dataset({n: (('chain', 'draw'), np.full((1, 3), 1.0)) for n in names})
+    out = []
+    pm = pred(True)
+    out.append(('PosteriorPredictiveModel', chi.PosteriorPredictiveModel(pm, posterior(pm)), [pm]))
+    pm = pred(False)
+    prior = pints.ComposedLogPrior(*[pints.UniformLogPrior(0.5, 1.5) for _ in range(pm.n_parameters())])
+    out.append(('PriorPredictiveModel', chi.PriorPredictiveModel(pm, prior), [pm]))
+    pm = pred(True)
+    out.append(('PopulationPredictiveModel',
+                chi.PopulationPredictiveModel(pm, chi.PooledModel(n_dim=pm.n_parameters())), [pm]))
+    pms = [pred(True), pred(False), pred(True)]
+    ppms = [chi.PosteriorPredictiveModel(x, posterior(x)) for x in pms]
+    out.append(('PAMPredictiveModel', chi.PAMPredictiveModel(ppms, [1.0, 2.0, 1.0]), pms))
+    return out
+
+
+def check_wrappers(ctx, wrappers, reg, ev, kind, rng):
+    """a regimen chosen through an averaging / population / model-averaging predictive model must be the
+    regimen of every predictive model behind it: the table each of them reports lists the doses of `reg`"""
+    for name, wrapper, leaves in wrappers:
+        for k_, leaf in enumerate(leaves):
+            leaf.set_dosing_regimen(dose=1.0 + k_, start=0.125)        # something else first, different per model
+        inp = {'regimen': reg, 'set_through': name}
+        try:
+            wrapper.set_dosing_regimen(**reg)
+        except Exception as e:  # noqa
+            ctx.spec('C10.table/through_wrapper', False, inp, {'raised': repr(e)[:200]})
+            continue
+        ctx.case('wrapper/' + name, nontrivial='wrapper/%s/%s' % (name, kind))
+        for T in final_times(reg, rng)[:4]:
+            want = expected_table([reg], T)
+            mt = model_table(ctx.model('C10.table', False, [ev], T))
+            tables = [('the wrapper', wrapper)] + [('wrapped model %d' % k_, leaf) for k_, leaf in enumerate(leaves)]
+            for who, obj in tables:
+                try:
+                    ct = table_of(obj.get_dosing_regimen(T))
+                except Exception as e:  # noqa
+                    ct = errk(e)
+                ctx.agree('C10.table_through_wrapper', ct, mt, dict(inp, final_time=T, table_of=who), rtol=1e-12)
+                ok = core.close(ct, want, 1e-12) if (ct is not None and want is not None) else \
+                    (ct is None and want is None)
+                ctx.spec('C10.table/through_wrapper', ok, dict(inp, final_time=T, table_of=who),
+                         {'table': ct, 'doses of the regimen up to final_time': want})
+
+
 def integrate_pacing(protocol, t_end):
     import myokit
     ps = myokit.PacingSystem(protocol)
@@ -765,6 +843,7 @@ def run(ctx):
         pm_model.set_administration('central')
         pm = chi.PredictiveModel(pm_model, [chi.GaussianErrorModel()])
         pm_fixed = chi.PredictiveModel(pm_model, [chi.GaussianErrorModel()])
+        wrappers = build_wrappers(chi, lib)
         pm_fixed.fix_parameters({'central.size': 2.0, 'Sigma': 0.5})
         out = 'central.drug_concentration'
         ctl_model = lib.one_compartment_pk_model()
@@ -818,6 +897,8 @@ def run(ctx):
                           {'regimen': reg, 'predictive_model': 'plain' if pmx is pm else 'parameters fixed first'})
             if i < n_sim and reg['duration'] != 0.01:
                 ctx.guard(check_simulated, ctx, chi, models, reg, kind, direct, rng, door)
+            if i % (6 if quick else 12) == 0 and reg['duration'] != 0.01:
+                ctx.guard(check_wrappers, ctx, wrappers, reg, ev, kind, rng)
         # --- explicit protocols with several events
         for i in range(20 if quick else 300):
             rng = ctx.sub_rng(10 ** 5 + i)
@@ -870,7 +951,7 @@ def run(ctx):
         for i in range(25 if quick else 300):
             ctx.guard(check_dataset_sequence, ctx, chi, lib, ctx.sub_rng(4 * 10 ** 5 + i), out)
         # --- generated compartment models, dosed
-        for i in range(14 if quick else 400):
+        for i in range(24 if quick else 400):
             ctx.guard(check_generated_dosing, ctx, chi, i, ctx.sub_rng(3 * 10 ** 5 + i))
     finally:
         for d in c09._TMP:
